@@ -100,7 +100,8 @@ MANIFEST_TEXT = {
     'C03': _mt('Model: TLC, all pairs at reduced width (finds the INT_MIN/-1 trap pattern and the lost-bits region on the original code). "No operand '
                'combination raises SIGFPE" is judged on every division event, NaN sentinels and the lowest raw word included. Code: dividends '
                'around 2^31, 2^46, 2^47 against small/large divisors, all integral divisor types at their limits; SIGFPE is caught by the driver and '
-               'recorded as an event (trap field), so a trap is a rejected event, not a lost trace.'),
+               'recorded as an event (trap field), so a trap is a rejected event, not a lost trace. Apalache: the divisor -1 path of fixed / integer '
+               '(unsigned negation) is the exact quotient for every raw word but the lowest, at 64 bits.', _T + ' + Apalache (symbolic, 64-bit)'),
     'C04': _mt('Model: TLC at reduced width, every value of every reduced type; Apalache proves both directions at 64 bits. Code: every value of the 8-bit '
                'types and (thorough) of the 16-bit types through all four conversion routes, type limits and +-(2^31-1)+-1 for the wider ones, '
                'fixed->integer around every multiple-of-2^16 boundary of every target range, implicit promotion in mixed +/-.',
